@@ -226,7 +226,13 @@ static void p_tx(hconn_t *h, htp_tx_t *tx) {
         if (i) putchar(',');
         hex_print_bstr(stdout, p->name); putchar('='); hex_print_bstr(stdout, p->value); printf("@%d", (int) p->source);
     }
-    printf("] rep=%u ign=%u exp=%d | ", (unsigned) tx->req_header_repetitions, (unsigned) tx->request_ignored_lines,
+    printf("] mp=");
+    if (tx->request_mpartp == NULL) printf("~");
+    else {
+        htp_multipart_t *m = htp_mpartp_get_multipart(tx->request_mpartp);
+        printf("%llu:%d:%zu", (unsigned long long) m->flags, m->boundary_count, htp_list_size(m->parts));
+    }
+    printf(" rep=%u ign=%u exp=%d | ", (unsigned) tx->req_header_repetitions, (unsigned) tx->request_ignored_lines,
            tx->response_status_expected_number);
     printf("sline="); hex_print_bstr(stdout, tx->response_line);
     printf(" sproto="); hex_print_bstr(stdout, tx->response_protocol);
